@@ -460,7 +460,26 @@ class Sym:
                             tgt = b2
                     bb = tgt
                     continue
-                succs = [(v, b2) for v, b2 in t["targets"]] + [("otherwise", t["otherwise"])]
+                # the same value was already tested on this path (expressions are values: loads carry versions): stay consistent
+                known = None
+                excluded = set()
+                for (_, d2, taken2, vals2) in p.conds:
+                    if d2 == d:
+                        if taken2 != "otherwise":
+                            known = taken2
+                        else:
+                            excluded |= set(vals2)
+                if known is not None:
+                    tgt = t["otherwise"]
+                    for v, b2 in t["targets"]:
+                        if v == known:
+                            tgt = b2
+                    bb = tgt
+                    continue
+                succs = [(v, b2) for v, b2 in t["targets"] if v not in excluded] + [("otherwise", t["otherwise"])]
+                if excluded and set(v for v, _ in t["targets"]) <= excluded and len(succs) == 1:
+                    bb = t["otherwise"]
+                    continue
                 for i, (v, b2) in enumerate(succs):
                     last = i == len(succs) - 1
                     q = p if last else self._clone(p)
